@@ -46,8 +46,9 @@ ASSUMPTIONS = [
     "v_min: Hydrodynamics floors v_min at 1e-3 -> compared with max(1e-3, template.vMin); the full solver leaves p_b(0.01 Tn) behind the wall where the template "
     "has exactly zero: the resulting shift is computed with the oracle and added to the tolerance",
     "LTE: both root-find vw on the temperature ahead of the shock: 8*(atol+rtol*vw) + (E_full+E_template)/|dTn/dvw| along the oracle's LTE branch; sentinels 0/1 must be equal",
-    "efficiency factor: Simpson rule over each solver's RK45 nodes - relative tolerance 5e-3 (tight) / 1e-2 (default) per solver, i.e. twice that between them "
-    "(the repository's own acceptance between the two is 1e-2); the oracle value is recorded",
+    "efficiency factor: quadrature of each solver's flow profile - relative tolerance 5e-3 (tight) / 1e-2 (default) per solver, i.e. twice that between them "
+    "(the repository's own acceptance between the two is 1e-2), plus the change of the oracle's kappa when the matching moves by the solvers' tolerance "
+    "(weak detonations: kappa ~ (vw - v-)^2 is ill-conditioned in T-); the oracle value is recorded",
     "a wall velocity below the template's own vMin (possible only if vMin disagrees) is reported once, by the vMin relation",
 ]
 
@@ -302,7 +303,7 @@ def case_eos(c: dict) -> dict:
                 r.close(f"{name}:c1", bt[0], bf[0], 64 * EPS * abs(c1), vw=v)
                 r.close(f"{name}:c2", bt[1], bf[1], 64 * EPS * (abs(eos.p("s", Tn)) + abs(c1) * v + eos.w("s", Tn) / mu), vw=v)
                 r.close(f"{name}:velocityMid", bt[4], bf[4], 0.5 * t_vm + 4 * EPS, vw=v)
-            state[name] = (v, branch, F, T)
+            state[name] = (v, branch, F, T, dT)
             continue
 
         # ---- deflagration / hybrid
@@ -358,7 +359,7 @@ def case_eos(c: dict) -> dict:
         r.tag(f"{branch}-vs-{ref_kind}")
         if ref_kind == "full":
             ncmp += 1
-            state[name] = (v, branch, F, T)
+            state[name] = (v, branch, F, T, _dvp(tol, "template", F[0], Tn, sens["dTn"]) + _dvp(tol, "full", F[0], Tn, sens["dTn"]))
             # boundary constants as returned by the two findHydroBoundaries: each must be the flux of its own matching
             if bf is not None and bt is not None and bt[0] is not None and bf[0] is not None:
                 for side, b, m in (("full", bf, F), ("template", bt, T)):
@@ -377,7 +378,7 @@ def case_eos(c: dict) -> dict:
     for name in KAPPA_AT:
         if name not in state:
             continue
-        v, branch, F, T = state[name]
+        v, branch, F, T, dsol = state[name]
         try:
             kf = float(hyd.efficiencyFactor(v))
         except Exception as ex:  # noqa: BLE001
@@ -389,8 +390,26 @@ def case_eos(c: dict) -> dict:
             r.true(f"{name}:kappa-template-no-exception", False, error=repr(ex)[:200], vw=v)
             continue
         ko, parts = OH.kappa(eos, v, F[0], F[1], F[2], F[3], Tn, alN)
+        # conditioning: change of the (oracle's) efficiency factor when the matching moves by what the solvers' tolerances
+        # allow - T- by the brentq tolerance for a detonation (v- follows), v+ by dv+ along the junction manifold otherwise.
+        # Weak detonations are extremely ill-conditioned (kappa ~ (vw - v-)^2).
+        kc = None
+        try:
+            if branch == "detonation":
+                Tm2 = F[3] + dsol
+                kc = OH.kappa(eos, v, v, O.det_vm_of_Tm(eos, Tn, Tm2), Tn, Tm2, Tn, alN)[0]
+            else:
+                st = O.state_of_vp(eos, branch, v, F[0] - dsol, F[2], F[3]) or O.state_of_vp(eos, branch, v, F[0] + dsol, F[2], F[3])
+                if st is not None:
+                    q = st["q"]
+                    kc = OH.kappa(eos, v, q[0], q[1], q[2], q[3], Tn, alN)[0]
+        except Exception:  # noqa: BLE001 - perturbed state outside the EOS/junction domain
+            kc = None
+        if kc is None or not np.isfinite(kc):
+            r.tag("kappa-unconditioned")
+            continue
         per = 5e-3 if c["tol"] == "tight" else 1e-2
-        r.close(f"{name}:kappa", kt, kf, 2 * per * abs(ko) + 1e-12, vw=v, oracle=ko, branch=branch)
+        r.close(f"{name}:kappa", kt, kf, 2 * per * abs(ko) + abs(kc - ko) + 1e-12, vw=v, oracle=ko, conditioning=abs(kc - ko), branch=branch)
         r.tag("kappa-" + branch)
 
     # ---------------------------------------------------------------- LTE wall velocity
